@@ -235,6 +235,48 @@ def check(ctx):
         hk = sorted(ins, key=lambda c: c.bb)[0]
         ctx.arg_origin("4.stored-under-given-height", hk, 1, "local:height", depth=1)
 
+    # -- 5. regenerated header fields: the outbox message ids are collected per transaction, skipping reverted ones --
+    with ctx.clause("5.outbox-ids-per-transaction"):
+        u = F.unit(f"{B}::proto_to_fuel_conversions::fuel_block_from_protobuf")
+        b = u.root
+        NEXT = "core::iter::traits::iterator::Iterator::next"
+        bn = ctx.one_call(b, "fuel_core_types::blockchain::block::Block::new")
+        anyc = ctx.one_call(b, "core::iter::traits::iterator::Iterator::any")
+        o = Origins(b, 3)
+        ctx.add("5.revert-test-on-this-transactions-receipts", "PROV", atom_match(o.atoms(anyc.args[0]), f"call:{NEXT}") and
+                not atom_match(o.atoms(anyc.args[0]), "call:core::iter::traits::iterator::Iterator::flatten"),
+                "the Revert/Panic test looks at the receipts of the transaction of the current iteration (not at all receipts of the block: "
+                "one reverted transaction must not hide the message outs of the successful ones)", sites=[anyc.where()], site_key="any")
+        ext = ctx.one_call(b, "core::iter::traits::collect::Extend::extend")
+        loops = [c for c in b.calls_to(NEXT) if c.bb in b.live and b.path([c.target], [ext.bb]) is not None and b.path([ext.target], [c.bb]) is not None]
+        ctx.expect_sites("5.per-transaction-loop", loops, exactly=1, what="loop over the per-transaction receipt lists")
+        ctx.add("5.ids-from-this-transactions-receipts", "PROV", atom_match(o.atoms(ext.args[1]), f"call:{NEXT}"),
+                "the message ids added come from the receipts of the transaction of the current iteration", sites=[ext.where()], site_key="ext")
+        rv_t = ctx.value_tests(b, "call:core::iter::traits::iterator::Iterator::any", depth=0)
+        ctx.guarded("5.ids-only-of-successful-transactions", b, [ext], rv_t, truth=False, detail="message outs of a reverted or panicked transaction are not part of the outbox")
+        if loops:
+            # the loop of one transaction is entered for every transaction: both calls sit inside the loop body
+            ctx.add("5.test-inside-loop", "ORDER", b.path([loops[0].target], [anyc.bb]) is not None and b.path([anyc.target], [loops[0].bb]) is not None,
+                    "the Revert/Panic test is evaluated once per transaction", sites=[anyc.where()], site_key="inloop")
+        ctx.add("5.block-rebuilt-with-those-ids", "PROV", ctx.same_local(b, bn.args[2], ext.args[0]) or atom_match(Origins(b, 1).atoms(bn.args[2]), "call:alloc::vec::Vec::new"),
+                "Block::new regenerates the outbox root / receipt count from the collected ids", sites=[bn.where()], site_key="ids")
+        ctx.arg_origin("5.block-rebuilt-with-converted-transactions", bn, 1, "call:core::iter::traits::iterator::Iterator::collect", depth=3)
+        ctx.arg_origin("5.block-rebuilt-with-converted-header", bn, 0, f"call:{B}::proto_to_fuel_conversions::partial_header_from_proto_header", depth=3)
+        # the closures agree with the executor's notion: any(Revert | Panic), filter_map(message_id)
+        cl = [x for x in u.bodies if x is not b]
+        mid = [c for x in cl for c in x.calls if c.bb in x.live and c.name == "message_id"]
+        ctx.expect_sites("5.message-id-extraction", mid, exactly=1, what="r.message_id() in the filter_map closure")
+        RC = "fuel_tx::receipt::Receipt"
+        tested = set()
+        for x in cl:
+            en = _resolve_enum(ctx, x, RC)
+            for (bb, sw, d) in ctx.enum_switches(x, en):
+                vs = ctx.variants(en)
+                explicit = {int(v) for v, t in sw.term.get("arms", []) if t != sw.term.get("otherwise")}
+                tested |= {vs[i] for i in explicit if i < len(vs)}
+        ctx.add("5.reverted-means-revert-or-panic", "MIRROR", tested == {"Revert", "Panic"},
+                f"the transaction counts as reverted iff it has a Revert or Panic receipt (variants singled out: {sorted(tested)})", sites=sorted(tested), site_key="rp")
+
 
 def _resolve_enum(ctx, body, q):
     """the enum path as it appears in the facts (re-exports make several spellings possible)"""
@@ -248,3 +290,4 @@ def _resolve_enum(ctx, body, q):
     if len(cands) == 1:
         return cands.pop()
     return q
+
